@@ -267,6 +267,11 @@ let handle (fields : string list) : string =
        "OK " ^ String.concat "," (List.map el t.k_elements) ^ " " ^ string_of_int (List.length t.k_atoms) ^ " "
        ^ String.concat ";" (List.map show_descr t.k_bds) ^ " " ^ hex (implode (print_token fprint true t)) ^ " " ^ hex (implode (print_token fprint false t))
        ^ " " ^ frag ^ " " ^ (if token_generable t then "T" else "F"))
+  | [ "erase"; s ] -> hex (implode (erase_ext (explode (unhex s))))
+  | [ "syssplit"; s ] ->
+    (match system_pieces (explode (unhex s)) with
+     | OK (ps, rest) -> "OK " ^ String.concat "," (List.map (fun p -> hex (implode p)) ps) ^ " " ^ hex (implode rest)
+     | Err (e, _) -> "ERR " ^ err_name e)
   | [ "float"; s ] ->
     (match py_float (explode (unhex s)) with None -> "ERR" | Some x -> string_of_num x ^ " " ^ implode (fprint x))
   | [ "repr"; s ] -> py_repr (float_of_string s)
